@@ -133,6 +133,7 @@ func runC06(seed int64, n int, dir string, _ []string) {
 	timeFormats(g, o, n)
 	datetimeFormats(g, o, n)
 	cellTexts(g, o, pr, n)
+	unicodeTexts(g, o, n)
 	dateTexts(g, o, 2*n)
 
 	// exhaustive Kleene tables against min/max/negation, on the real ternary package
